@@ -27,6 +27,7 @@ import PGProofs.MomentsThm
 import PGProofs.RewardsThm
 import PGProofs.SampleConsistency
 import PGProofs.ApiThm
+import PGProofs.MemoThm
 
 set_option linter.all false
 set_option pp.fieldNotation.generalized false
@@ -88,6 +89,18 @@ theorem call_routes_agree : ∀ {ρ : Type} (v : Api.Variant), v ≠ Api.Variant
 /-- rewards=None means [self.reward]*k; None times mean the defaults -/
 theorem call_none_is_default : ∀ {ρ : Type} (v : Api.Variant) (ctx : Api.DistCtx ρ) (c : Api.MomentCall ρ), Api.momentCall v ctx { k := c.k, rewards := c.rewards, endTime := c.endTime, center := c.center, permute := c.permute } = Api.momentCall v ctx { k := c.k, rewards := c.rewards, startTime := some ctx.startDefault, endTime := c.endTime, center := c.center, permute := c.permute } ∧ Api.momentCall v ctx { k := c.k, rewards := c.rewards, startTime := c.startTime, center := c.center, permute := c.permute } = Api.momentCall v ctx { k := c.k, rewards := c.rewards, startTime := c.startTime, endTime := some ctx.tMax, center := c.center, permute := c.permute } ∧ Api.momentCall v ctx { k := c.k, startTime := c.startTime, endTime := c.endTime, center := c.center, permute := c.permute } = Api.momentCall v ctx { k := c.k, rewards := some (List.replicate (Int.toNat c.k) ctx.defaultReward), startTime := c.startTime, endTime := c.endTime, center := c.center, permute := c.permute } ∧ ∀ (ts : List ℚ), Api.accumulateCall v ctx c.k none ts c.center c.permute = Api.accumulateCall v ctx c.k (some (List.replicate (Int.toNat c.k) ctx.defaultReward)) ts c.center c.permute := @PG.Api.api_none_is_default
 
+/-- two different reward tuples asked one after the other on the same object each get their own value -/
+theorem memo_tuples_separate : ∀ {V : Type} (F : Memo.Fresh V) (a b : Memo.MomentArgs), (Memo.runAll Memo.Variant.current F Memo.init [Memo.Query.moment a, Memo.Query.moment b]).answers = [Memo.specMoment F a, Memo.specMoment F b] := @PG.Memo.memo_reward_tuples_separate
+
+/-- memo-key comparison = equality of rewards (nested composites included) -/
+theorem memo_keys_exact : ∀ (r r' : Reward), Memo.keyEq Memo.KeyScheme.current r r' = true ↔ r = r' := @PG.Memo.memo_keyEq_iff
+
+/-- kernel-checked: a composite hash built from frozenset(children) makes Sum[A,A,B] collide with Sum[A,B] -/
+theorem memo_frozenset_defect : (Memo.runAll Memo.Variant.frozensetComposite Memo.toy Memo.init [Memo.momentOf [Reward.sum [Memo.A, Memo.A, Memo.B]], Memo.momentOf [Reward.sum [Memo.A, Memo.B]]]).answers = [5356691, 5356691] ∧ List.map (Memo.spec Memo.toy) [Memo.momentOf [Reward.sum [Memo.A, Memo.A, Memo.B]], Memo.momentOf [Reward.sum [Memo.A, Memo.B]]] = [5356691, 595691] ∧ (Memo.runAll Memo.Variant.current Memo.toy Memo.init [Memo.momentOf [Reward.sum [Memo.A, Memo.A, Memo.B]], Memo.momentOf [Reward.sum [Memo.A, Memo.B]]]).answers = [5356691, 595691] := @PG.Memo.frozensetComposite_collides
+
+/-- kernel-checked: hashing the defining class name makes composites differing in a stateless member collide (bare atoms still do not) -/
+theorem memo_base_class_hash_defect : (Memo.runAll Memo.Variant.baseClassHash Memo.toy Memo.init [Memo.momentOf [Reward.prod [Reward.unit, Memo.A]], Memo.momentOf [Reward.prod [Reward.unit, Memo.B]]]).answers = [580681, 580681] ∧ List.map (Memo.spec Memo.toy) [Memo.momentOf [Reward.prod [Reward.unit, Memo.A]], Memo.momentOf [Reward.prod [Reward.unit, Memo.B]]] = [580681, 598681] ∧ (Memo.runAll Memo.Variant.current Memo.toy Memo.init [Memo.momentOf [Reward.prod [Reward.unit, Memo.A]], Memo.momentOf [Reward.prod [Reward.unit, Memo.B]]]).answers = [580681, 598681] := @PG.Memo.baseClassHash_collides
+
 end PG.C15
 
 #print axioms PG.C15.cov_routes_agree
@@ -108,3 +121,7 @@ end PG.C15
 #print axioms PG.C15.call_layer_exact
 #print axioms PG.C15.call_routes_agree
 #print axioms PG.C15.call_none_is_default
+#print axioms PG.C15.memo_tuples_separate
+#print axioms PG.C15.memo_keys_exact
+#print axioms PG.C15.memo_frozenset_defect
+#print axioms PG.C15.memo_base_class_hash_defect
